@@ -46,6 +46,7 @@ type Ast struct {
 	Max     int
 	Lazy    bool
 	On, Off string // AOptGroup: letters among imsnx
+	Bare    bool   // AOptGroup at the tail of its enclosing group: printed as the stand-alone form (?on-off) followed by its body
 	Ref     int
 	Kids    []*Ast
 }
@@ -289,9 +290,41 @@ func (a *Ast) print(sb *strings.Builder, o Opts, r *Rng) {
 		if a.Off != "" {
 			sb.WriteString("-" + a.Off)
 		}
+		if a.Bare {
+			// stand-alone spelling: the setting lasts to the end of the enclosing group, which is where this node ends
+			sb.WriteByte(')')
+			a.Kids[0].print(sb, o.apply(a.On, a.Off), r)
+			return
+		}
 		sb.WriteByte(':')
 		a.Kids[0].print(sb, o.apply(a.On, a.Off), r)
 		sb.WriteByte(')')
+	}
+}
+
+// markBare picks, at random, option groups that may be written in the stand-alone spelling: those whose body ends
+// exactly where the enclosing group (or the pattern) ends, so that "(?n)body" and "(?n:body)" mean the same.
+func (a *Ast) markBare(r *Rng, tail bool) {
+	switch a.Kind {
+	case AConcat:
+		for i, k := range a.Kids {
+			k.markBare(r, tail && i == len(a.Kids)-1)
+		}
+	case AAlt:
+		for i, k := range a.Kids {
+			k.markBare(r, tail && i == len(a.Kids)-1)
+		}
+	case AGroup, ANonCap, AAtomic, ALook:
+		for _, k := range a.Kids {
+			k.markBare(r, true)
+		}
+	case AOptGroup:
+		a.Bare = tail && a.Kids[0].Kind != AAlt && r.Chance(50)
+		a.Kids[0].markBare(r, !a.Bare || tail) // scoped spelling: a new group; bare: still at the tail of the outer one
+	default:
+		for _, k := range a.Kids {
+			k.markBare(r, false)
+		}
 	}
 }
 
@@ -338,6 +371,9 @@ func (a *Ast) printAtom(sb *strings.Builder, o Opts, r *Rng, quantified bool) {
 
 func (a *Ast) Pattern(o Opts, r *Rng) string {
 	var sb strings.Builder
+	if r != nil {
+		a.markBare(r, true)
+	}
 	a.print(&sb, o, r)
 	return sb.String()
 }
